@@ -35,12 +35,16 @@ Definition phase_close (tol : float) (a b : list cf) : bool :=
   let nb := cnorm2 fops bk in
   let ph := cdivr fops (cmul fops ak (cconj fops bk)) nb in
   vclose tol a (map (fun x => cmul fops ph x) b).
+(* the register the program declares: it is run on the circuit's input state, so it must be exactly as wide as that state *)
+Definition declared_width (stmts : list qstmt) : option N :=
+  match find (fun s => match s with SQubitDecl _ => true | _ => false end) stmts with Some (SQubitDecl k) => Some k | _ => None end.
 Definition check_export_sem (par : bool) (text : string) (tab : list (qexpr * (float * float * float * float))) (n : N) (v : list cf)
     (draws : list float) (impl_ok : bool) (w : list cf) : N :=
   match p_program (lex text) with
   | None => 0
   | Some stmts =>
       if negb (accepts (lex text)) then 1          (* parsed, but not a valid program (static checks): it has no meaning *)
+      else if negb (match declared_width stmts with Some k => N.eqb k n | None => false end) then 1 + 2   (* runs, on another register *)
       else
       match run_program fops f_of_N feps ftol (flit tab) par stmts (mkState n v) draws with
       | Ok s => 1 + 2 + 4 * b2n (impl_ok && vclose (0x1.12e0be826d695p-30 * fmax 1 (vmaxabs v))%float (vec s) w)
